@@ -2,7 +2,7 @@
 CONSTANTS Pods = {"p1", "p2"}  Tol = {"p2"}
   Starts = {"registered"}
   VaOwners = {"p1"}  TGPs <- BoolBoth  Instants <- BoolF
-  MaxFaults = 0  MaxRestarts = 0  MaxLen = 1000
+  MaxFaults = 0  MaxRestarts = 0  MaxLen = 1000  MaxSpont = 99
   Atomic = TRUE  FinalizeMode = "cache"  Weak = "deleteOkIsGone"
 SPECIFICATION Spec
 VIEW view
